@@ -336,6 +336,11 @@ func checkD(c CaseD) *core.Violation {
 				}
 			}
 		}
+		for _, x := range diffs {
+			if astralDiff(x.Want) {
+				return core.V(astralSig, "file %d, %s: written %s, loaded %s (%d differing item(s))\n--- profile ---\n%s", file, x.Path, x.Want, x.Got, len(diffs), src)
+			}
+		}
 		return core.V(fmt.Sprintf("shared-fragment|value-mismatch|%s|after=%s", sp, earlier),
 			"file %d, %s (%s): written %s, loaded %s (%d differing item(s))\npool: %q\n--- profile ---\n%s", file, d.Path, sp, d.Want, d.Got, len(diffs), c.Pool, src)
 	}
